@@ -111,6 +111,8 @@ func runFlock(a []string) {
 			for i := 0; i < int(atoi(f[1])); i++ {
 				l.Publish([]klevdb.Message{{Time: utime(int64(100 + i)), Key: []byte{byte('a' + i%3)}, Value: []byte{1, 2, 3, byte(i)}}})
 			}
+			// ... and one whose key shares its FNV-1a-64 hash with the key the "k" query looks up
+			l.Publish([]klevdb.Message{{Time: utime(150), Key: unhx("dc624fd8394d8c42"), Value: []byte("collides")}})
 			l.Close()
 		case "o":
 			if _, busy := hs[f[1]]; busy {
@@ -179,6 +181,17 @@ func runFlock(a []string) {
 			}
 			st := &hstate{dir: dir, log: h.log}
 			res = "ok " + strings.Join(probe(st, []string{"scan"}), " ; ")
+		case "k":
+			// a by-key lookup of a key that is absent but collides with a present one: every candidate position is
+			// read and rejected - a query like any other as far as locks and files are concerned
+			h, ok := hs[f[1]]
+			if !ok || h.log == nil {
+				res = "skip"
+				break
+			}
+			_, err1 := h.log.GetByKey(unhx("acef63b1d3c2efd2"))
+			_, err2 := h.log.OffsetByKey(unhx("acef63b1d3c2efd2"))
+			res = "ok " + errClass(err1) + " " + errClass(err2)
 		case "corrupt":
 			segs := listSegs(dir)
 			if len(segs) == 0 {
